@@ -134,7 +134,9 @@ CHECKS["C17"] = (
     "returned by get_time_with_phase the mean anomaly equals the requested phase; selection keeps header and metadata and returns the selected "
     "rows; median_period's index is a member of rank floor(n/2). Each run Coq compares the model with the implementation on random tables (index "
     "expressions, copy, mean/std metadata, median_period, pack/unpack, every wrap_K row, time-of-phase). unpack(pack t) = t for every well-formed table (distinct names, equal column lengths: names, "
-    "units, values, metadata) and pack(unpack rows) = rows for every rectangular matrix are proved (C17_unpack_pack, C17_pack_unpack).",
+    "units, values, metadata) and pack(unpack rows) = rows for every rectangular matrix are proved (C17_unpack_pack, C17_pack_unpack). "
+    "tools/py2v_samples.py regenerates wrap_K, get_time_with_phase, get_t0 and median_period from source as real-number row functions (Gen/SamplesGen.v, accepted only in the pinned statement forms, numpy's % as the floored remainder) and Props/C17g.v proves for EVERY row: K' >= 0, untouched where K >= 0, "
+    "K' = -K and omega' = omega + pi - 2 pi n in [0, 2 pi) where K < 0, same RV curve; mean anomaly at the returned time = requested phase.",
     "Trusted: Coq kernel + vm_compute; Coq-Interval; stdlib real axioms; astropy unit conversion and Time arithmetic (1e-9); twobody orbits only "
     "in the predicate (RV curve before/after wrap_K).",
     "DESIGN.md 3 (C17)",
